@@ -30,7 +30,7 @@ ASSUMPTIONS = [
     "aliasing between a result and its receiver (shared entry objects) is not a violation by itself: the statement is about the call",
 ]
 REQUIRED_CLASSES = ["args:unsorted_argument", "tier_history:mutator_failed", "tg_ops:mutator_failed", "save_fail:failed_with_existing_file",
-                    "tg_ops:rename_clash", "tg_ops:add_span_error", "tg_ops:replace_of_only_tier_failed"]
+                    "tg_ops:rename_clash", "tg_ops:add_span_error"]
 
 
 def run_tier_history(case):
